@@ -366,12 +366,32 @@ def unit_elbo(ctx):
             ctx.sample(dict(case=cj, loss_plain=obs[False][0], loss_stl=obs[True][0], model_plain=m_val[0], model_stl=m_val[1],
                             numpy=np_elbo(ref["lq_slp"], ref["t_slp"]), score_term_max=score_max,
                             dir_derivative=dict(stl_impl=float(obs[True][2] @ v), stl_model=m_dual[1][1], plain_impl=float(obs[False][2] @ v), plain_model=m_dual[0][1])))
+        if ci % reps == 0 and n <= 5:
+            # the model draws one point per key of jr.split(key, n): replay that with the one-key private methods
+            bad = _sample_keys_check(cj, ref)
+            if bad:
+                ctx.violation(sig="sample-keys:assumption", what=bad, case=cj, found_input=False, unit=u.name, broken="model assumption: sample(key, (n,)) = one draw per key of jr.split(key, n)")
         for e in errs:
             unit = g if e["kind"].startswith("grad") else u
             unit.disagreements += 1
             ctx.violation(sig=f"ElboLoss:{e['kind']}", what=e["what"] + f" on {cj['dist']} target {cj['target']} num_samples {n} key {cj['key']}",
                           case=cj, found_input=e["oracle"], unit=unit.name, expected=e.get("expected"), observed=e.get("observed"),
                           broken=e["broken"], reproducer="cd /verif && ./check C17 --replay <this file>")
+
+
+def _sample_keys_check(cj, ref):
+    """dist.sample(key, (n,))[i] == dist._sample(jr.split(key, n)[i]) (and the same for sample_and_log_prob), exactly."""
+    s = _jx()
+    jr = s["jr"]
+    d = s["wrappers"].unwrap(build_dist(cj["dist"], cj["seed"], cj["sd"]))
+    keys = jr.split(jr.PRNGKey(cj["key"]), cj["num_samples"])
+    for i in range(cj["num_samples"]):
+        xi = np.asarray(d._sample(keys[i]))
+        xi2, lpi = d._sample_and_log_prob(keys[i])
+        if not np.allclose(xi, np.asarray(ref["x_s"][i]), rtol=1e-12, atol=1e-12) or not np.allclose(np.asarray(xi2), np.asarray(ref["x_slp"][i]), rtol=1e-12, atol=1e-12) \
+                or not close(float(lpi), float(ref["lq_slp"][i])):
+            return f"sample(key, ({cj['num_samples']},))[{i}] is not the draw at jr.split(key, n)[{i}]"
+    return None
 
 
 def _elbo_judge(ref, obs, v, m_val, m_dual):
@@ -575,9 +595,9 @@ def _contr_judge(cj, o, m_full, m_rows):
                          what=f"ContrastiveLoss = {v!r} but the mean softmax cross-entropy over the rows _get_contrastive_idxs gives at this key = {ov!r}"))
     elif not close(v, mr):
         errs.append(dict(kind="value:model-rows", oracle=False, expected=mr, observed=v, broken="correspondence contrastive-loss", what=f"ContrastiveLoss = {v!r}, model on the same index rows {mr!r}"))
-    elif not close(v, mf):
+    elif not ierrs and not close(v, mf):
         errs.append(dict(kind="value:model-full", oracle=False, expected=mf, observed=v, broken="correspondence contrastive-loss (index model inside the loss)",
-                         what=f"ContrastiveLoss = {v!r}, full model (index model with replayed jr.choice) {m_full}"))
+                         what=f"ContrastiveLoss = {v!r}, full model (index model with replayed jr.choice, then the row formula) {mf!r}"))
     return errs
 
 
